@@ -82,6 +82,12 @@ pub fn recorded_waits() -> Vec<WaitRequest> {
     })
 }
 
+/// Whether the calling thread is recording its readiness waits (`record_waits(Some(..))`).
+#[must_use]
+pub fn recording_waits() -> bool {
+    WAIT_RECORDER.with(|r| r.borrow().is_some())
+}
+
 /// Called at the start of a readiness wait. Returns `true` when the harness asked for this
 /// wait to fail; does nothing and returns `false` unless the calling thread is recording.
 #[must_use]
